@@ -46,6 +46,16 @@ def run(tier, seed):
     for rep in tlc.validate_traces("Trace_C03.tla", shards, jobs=16, heap="3g"):
         cx.add_report(rep)
         cx.cov["invariant_evaluations"] = cx.cov.get("invariant_evaluations", 0) + rep["extra"]["nchecked"]
+    for sh in shards:
+        if any('"model": "mssm"' in ln and '"exc": ""' in ln and '"problem": false' in ln for ln in open(sh)):
+            cx.selftest_corruption("Trace_C03.tla", sh,
+                                   lambda ev: ev["o"]["aChi0"] if ev.get("model") == "mssm" and ev["exc"] == "" and not ev.get("problem") else None, "Neutralino")
+            break
+    for ln in open(raw):
+        ev = json.loads(ln)
+        if ev["exc"] == "" and len(cx.cov["samples"]) < 3 and (ev["model"] == "thdm" or not ev.get("problem")):
+            cx.sample({"class": ev["sig"], "a1L": core.dy(ev["o"]["a1L"]),
+                       "masses": {k: core.dy(v) for k, v in ev["o"].items() if k.startswith(("MChi", "MCha", "MSm", "mh", "mH", "mA"))}})
     refused = problems = 0
     for ln in open(raw):
         ev = json.loads(ln)
